@@ -139,7 +139,8 @@ def check_walkers(p, res, root, is_bytes=False):
             guarded(res, dict(inp, mode='PurePath.match'), 'PurePath.match', lambda: WP.PurePosixPath('a/a').match(p, flags=fl),
                     allow)
     for wn, wf in (('RV|E', WM.RECURSIVE | WM.EXTMATCH), ('RV|FP|DP|G|E|B', WM.RECURSIVE | WM.FILEPATHNAME | WM.DIRPATHNAME | WM.GLOBSTAR | WM.EXTMATCH | WM.BRACE),
-                   ('RV|M|X|FP', WM.RECURSIVE | WM.MINUSNEGATE | WM.MATCHBASE | WM.FILEPATHNAME)):
+                   ('RV|M|X|FP', WM.RECURSIVE | WM.MINUSNEGATE | WM.MATCHBASE | WM.FILEPATHNAME),
+                   ('RV|X', WM.RECURSIVE | WM.MATCHBASE), ('RV|X|DP', WM.RECURSIVE | WM.MATCHBASE | WM.DIRPATHNAME)):
         res.n['evaluations'] += 1
         inp = {'mode': 'WcMatch', 'pattern': pp, 'flags': wn}
         guarded(res, inp, 'WcMatch', lambda: WM.WcMatch(r, pp, pp, flags=wf).match())
@@ -386,7 +387,7 @@ def run_chunk(chunk):
                         continue
                     p = t.replace('%s', r)
                     for isb in (False, True):
-                        check_pattern(p, res, root, is_bytes=isb, only=('ER', 'GER', 'E', 'GE'))
+                        check_pattern(p, res, root, is_bytes=isb, only=('ER', 'GER', 'E', 'GE', 'EW', 'GEW'))
                     check_walkers(p, res, root)
                     check_walkers(p, res, root, is_bytes=True)
             res.samples.append({'raw_escape': '[\\400-z]'})
